@@ -25,7 +25,7 @@ PROPS['C08'] = A(level='model_checking',
     harnesses=[A(src='harness/c08_pairing.cpp', san='asan')],
     budget=A(quick=150, thorough=1500),
     bounds=A(quick='N=5 nodes, every priority multiset over {0,1,2}; push/pop/remove histories of any length (fixpoint)',
-             thorough='N=7 nodes, every priority multiset over {0,1,2}; fixpoint'),
+             thorough='N=7 nodes, every priority multiset over {0,1,2}, plus N=8 for three balanced multisets; fixpoint'),
     assumptions=TRUST)
 
 SEQ_H = [A(src='harness/c13_seq.cpp', san='asan')]
